@@ -1,0 +1,9 @@
+//go:build verif
+
+package x509
+
+// Verification hook for C02 (operations on parsed certificates are total and
+// deterministic): the unexported helper behind the JSON "names" member.
+
+// VerifC02PurgeNameDuplicates calls purgeNameDuplicates.
+func VerifC02PurgeNameDuplicates(names []string) []string { return purgeNameDuplicates(names) }
